@@ -141,6 +141,7 @@ type vhSpec struct {
 	reqIP   net.IP // spec.loadBalancerIP (nil = none)
 	reqPool string // address-pool annotation
 	recIP   net.IP // recorded status address (nil = none)
+	badReq  bool   // the address request is malformed (spec.loadBalancerIP and the loadBalancerIPs annotation both set)
 }
 
 func vhSymAddr() net.IP { return net.IP{10, 0, vr.Byte() & 1, vr.Byte() & 1} }
@@ -360,7 +361,7 @@ func (w *vhCluster) quiescent(specs []*vhSpec, tag string) []net.IP {
 		}
 		if held[i] != nil {
 			vr.Assert(vhAddrOK(w.pools, s, held[i], specs, held, i), tag+": a Service holds an address that violates exclusivity, its explicit request or its requested pool")
-		} else {
+		} else if !s.badReq {
 			vr.Assert(vr.Not(vhAdmissible(w.pools, s, specs, held, i)), tag+": a Service is without address although an admissible address exists")
 		}
 	}
@@ -372,7 +373,8 @@ func (w *vhCluster) quiescent(specs []*vhSpec, tag string) []net.IP {
 // 2 re-type to ClusterIP, 3 change of request, 4 sharing-key / port change, 5 pool change.
 func VerifControllerWorld(layout, nsvc, eventKind, failures int) {
 	lite := layout >= 10
-	stale := layout >= 20
+	stale := layout >= 20 && layout < 30
+	malformed := layout >= 30 // the first Service carries a malformed address request
 	layout %= 10
 	ps := vhCtlLayout(layout)
 	api := &vhAPI{objs: map[string]*v1.Service{}, perm: vr.Choose(6)}
@@ -399,6 +401,14 @@ func VerifControllerWorld(layout, nsvc, eventKind, failures int) {
 		if s.recIP != nil {
 			vr.Assume(vhAddrOK(ps, s, s.recIP, specs, rec, i))
 		}
+	}
+	if malformed {
+		// a request nobody can honour: it never yields a new address, and it does not take away the
+		// address the Service already holds (the status stays as it is)
+		s0 := specs[0]
+		s0.reqIP, s0.badReq = nil, true
+		api.objs[s0.name].Spec.LoadBalancerIP = "10.0.0.1"
+		api.objs[s0.name].Annotations[AnnotationLoadBalancerIPs] = "10.0.0.0"
 	}
 	// stale world (layout 20..): while no controller was running, the user changed the requested address
 	// of one Service; its recorded address may no longer be what it asks for
